@@ -606,6 +606,44 @@ func ruleC12Hooks(cx *Ctx) {
 					a.check(name+": read hook at most once", reads <= 1, "SetIfAbsent on a live entry reads it once", fmt.Sprintf("%d", reads), o)
 				}
 			}
+			// the explicit deadline setters: on a live entry the deadline is stored, unless the path decided - by looking
+			// at that very deadline - that it already has the requested value
+			if spec.kind == "setExp" || spec.kind == "setRefr" {
+				flag, setEv, casEv, acc, durP := "withExpiration", "SetExpiresAt", "CASExpiresAt", "ExpiresAt(", "param:expiresAfter"
+				if spec.kind == "setRefr" {
+					flag, setEv, casEv, acc, durP = "withRefresh", "SetRefreshableAt", "CASRefreshableAt", "RefreshableAt(", "param:refreshableAfter"
+				}
+				fl, fk := flagOf(o, flag)
+				var nodeT string
+				for _, e := range allEvents(o, "TableGet") {
+					nodeT = e.Args[0]
+				}
+				live := false
+				if nodeT != "" {
+					isNil, nk := predOf(o, "IsNil("+nodeT+")")
+					exp, ek := expiredOf(o, nodeT)
+					live = nk && !isNil && ((ek && !exp) || (fk && !fl))
+				}
+				positive := true
+				for atom, v := range o.S.preds {
+					if strings.Contains(atom, durP) && strings.Contains(atom, "<=const(0)") && v {
+						positive = false
+					}
+					if strings.Contains(atom, durP) && strings.HasPrefix(atom, "("+durP+">const(0)") && !v {
+						positive = false
+					}
+				}
+				if fk && fl && live && positive {
+					stores := len(allEvents(o, setEv)) + len(allEvents(o, casEv))
+					justified := false
+					for atom := range o.S.preds {
+						if (strings.Contains(atom, acc) || strings.Contains(atom, "."+strings.TrimSuffix(acc, "(")+"Nano)")) && strings.Contains(atom, durP) {
+							justified = true
+						}
+					}
+					a.check(name+": deadline stored or already equal", stores >= 1 || justified, "on a live entry the requested deadline is stored unless a comparison of the entry's current "+strings.TrimSuffix(acc, "(")+" with the requested duration shows it is already in place", fmt.Sprintf("%d store(s), no comparison with the current deadline", stores), o)
+				}
+			}
 			if spec.kind == "getQuiet" {
 				a.check(name+": quiet read consults no hook", len(allEvents(o, "Calc")) == 0, "a quiet read has no side effect on deadlines", fmt.Sprint(allEvents(o, "Calc")), o)
 			}
